@@ -1259,8 +1259,7 @@ stop_and_drop_with_http_err:
 		cli->req.data_size = 0;
 		break;
 	case HTTP_REQ_METHOD_GET:
-	case HTTP_REQ_METHOD_SUBSCRIBE:
-		/* No data in GET and SUBSCRIBE requests. */
+		/* No data in GET requests: http_req_sec_chk() refuse Content-Length. */
 		cli->req.data_size = 0;
 		break;
 	case HTTP_REQ_METHOD_POST:
